@@ -371,7 +371,7 @@ func c11Heavy(reps int) int {
 	for r := 0; r < reps; r++ {
 		loader := jet.NewInMemLoader()
 		loader.Set("/inc.jet", `[{{ .F0 }}{{ .F1 }}]`)
-		loader.Set("/heavy.jet", `{{ isset(leak) }}{{ range z := none }}z{{ else }}-{{ end }}{{ range k, v := nomap }}z{{ else }}-{{ end }}{{ range i, x := xs }}{{ i }}{{ x }}{{ range _, y := ys }}{{ y }}{{ end }}{{ end }}|{{ range k, v := m }}{{ k }}{{ v }}{{ range k2, v2 := m }}{{ v2 }}{{ end }}{{ end }}|{{ include "inc" st }}|{{ st.F2 }}|{{ gg }}`)
+		loader.Set("/heavy.jet", `{{ isset(leak) }}{{ range z := none }}z{{ else }}-{{ end }}{{ range k, v := nomap }}z{{ else }}-{{ end }}{{ range i, x := xs }}{{ i }}{{ x }}{{ range _, y := ys }}{{ y }}{{ end }}{{ end }}|{{ range k, v := m }}{{ k }}{{ v }}{{ range k2, v2 := m }}{{ v2 }}{{ end }}{{ end }}|{{ include "inc" st }}|{{ st.F2 }}|{{ gg }}|{{ we.Deep }}`)
 		loader.Set("/edit.jet", bodyA)
 		// fails inside a scope that is released by a plain statement, not by a defer, with a variable of its own
 		loader.Set("/failing.jet", `{{ range i, x := xs }}{{ if y := x; y }}{{ nosuchfunc() }}{{ end }}{{ end }}`)
@@ -386,7 +386,15 @@ func c11Heavy(reps int) int {
 		for k := 0; k < 3; k++ {
 			st.Field(k).SetString(fmt.Sprintf("f%d", k))
 		}
-		want := "false--0prs1qrs|k11|[f0f1]|f2|7"
+		// another fresh type, with a field promoted through an embedded pointer (resolved on the slow path)
+		embT := reflect.StructOf([]reflect.StructField{
+			{Name: "C11Emb", Type: reflect.TypeOf(&c11Emb{}), Anonymous: true},
+			{Name: "U", Type: reflect.TypeOf(""), Tag: reflect.StructTag(fmt.Sprintf(`r:"%d_%d"`, r, time.Now().UnixNano()))}})
+		withEmb := reflect.New(embT).Elem()
+		withEmb.Field(0).Set(reflect.ValueOf(&c11Emb{Deep: "deep"}))
+		nilEmb := reflect.New(embT).Elem()
+		loader.Set("/nilemb.jet", `{{ e.Deep }}`)
+		want := "false--0prs1qrs|k11|[f0f1]|f2|7|deep"
 		// a caching Set: pages without blocks of their own extend a cached layout and import a library that
 		// overrides the layout's block; parsing a page must not touch the layout other goroutines are executing
 		l2 := jet.NewInMemLoader()
@@ -435,10 +443,16 @@ func c11Heavy(reps int) int {
 					}
 					vars := jet.VarMap{}
 					vars.Set("xs", []string{"p", "q"}).Set("ys", []string{"r", "s"}).Set("none", []string{}).Set("nomap", map[string]int{}).
-						Set("m", map[string]int{"k": 1}).Set("st", st.Interface())
+						Set("m", map[string]int{"k": 1}).Set("st", st.Interface()).Set("we", withEmb.Interface())
 					var b bytes.Buffer
 					if err := t.Execute(&b, vars, nil); err != nil || b.String() != want {
 						fail("heavy rendered %q (err %v), alone it renders %q", b.String(), err, want)
+					}
+					// the same promoted field on a value whose embedded pointer is nil: an error, whoever looked first
+					if tn, err := set.GetTemplate("nilemb"); err == nil {
+						if tn.Execute(io.Discard, jet.VarMap{}.Set("e", nilEmb.Interface()), nil) == nil {
+							fail("nilemb.jet did not fail")
+						}
 					}
 					if tp, err := set2.GetTemplate(fmt.Sprintf("page_%d_%d", g, k)); err != nil {
 						fail("GetTemplate(page): %v", err)
@@ -495,6 +509,8 @@ func c11Heavy(reps int) int {
 	}
 	return bad
 }
+
+type c11Emb struct{ Deep string }
 
 func init() {
 	commands["replay-C11"] = func(a []string) int { return replayLoop(a[0], a[1], c11Replay) }
